@@ -321,6 +321,9 @@ func init() {
 			if alt != (gen.Alt{}) {
 				c.Inc("probe:alternative-encodings (LONG for SHORT, ISO x2, slot padding)")
 			}
+			if c.L("gen:y").Chance(1, 12) {
+				rec.DNG = true // a DNGVersion tag: it makes a bare TIFF a DNG and changes no other container's type
+			}
 			nikonNote(c, rec)
 			ref := drawEmbedCase(c, g, gen.CTIFF, rec, opts, false, alt)
 			cand := drawEmbedCase(c, g, kind, rec, opts, true, alt)
@@ -438,6 +441,9 @@ func init() {
 				c.Inc("probe:alternative-encodings (LONG for SHORT, ISO x2, slot padding)")
 			}
 			c.Descf("alt encodings: %+v", alt)
+			if c.L("gen:y").Chance(1, 12) {
+				rec.DNG = true
+			}
 			nikonNote(c, rec)
 			ec := drawEmbedCase(c, g, kind, rec, o, g.Bool(), alt)
 			if !ec.okLimit {
